@@ -515,6 +515,7 @@ func (m *metadataAPI) ResumeStream(ctx context.Context, req *proto.ResumeStreamO
 	if err := future.Error(); err != nil {
 		return status.Newf(codes.Internal, "Failed to resume stream: %v", err.Error())
 	}
+	verifGate("metadata.resume_stream.applied")
 
 	// Wait for leader to resume partition(s) (best effort).
 	var wg sync.WaitGroup
